@@ -10,6 +10,9 @@ HEADER = ("From Coq Require Import List String NArith Bool Arith.\n"
           "From FV Require Import Base.Re Base.Grammar Model.ForecastM Model.C19Case.\n"
           "Import ListNotations.\nOpen Scope string_scope.\nOpen Scope list_scope.\n")
 CT = "(list (string * rhs) * list msg * list msg * bool)"
+PT = "(list (string * rhs) * list msg * list msg * bool * list (msg * msg))"
+KNOWN_MERGE = ("options-merged-over-recipients: ForecastingNonTerminals keeps one packet per (sender, message type); when a grammar sends one message type "
+               "from one sender to different recipients at different places, the options are merged and carry the recipient of the first one found")
 
 PARTIES = '''
 class Fuzzer(FandangoParty):
@@ -57,9 +60,15 @@ def obligations(res):
 
 # ------------------------------------------------------------------ protocol grammars
 
+RECIPIENTS = {"Fuzzer": ["Extern", "Third", None], "Extern": ["Fuzzer", None], "Third": ["Fuzzer", None]}
+
+
 def msg_ref(rng, used):
     nt, s, r = rng.choice(MSGS[: rng.choice([2, 3, 4, 6])])
     used.add(nt)
+    if rng.random() < 0.3:
+        # the same message type of the same sender may go to different recipients at different places of the grammar
+        r = rng.choice(RECIPIENTS[s])
     return f"<{s}:{r}:{nt[1:-1]}>" if r else f"<{s}:{nt[1:-1]}>"
 
 
@@ -104,6 +113,9 @@ FIXED = [
     ("<start> ::= <Fuzzer:Extern:m0>{2,3} <Fuzzer:Extern:m0>\n<m0> ::= 'm0;'\n" + PARTIES, ["<start>"]),
     ("<start> ::= (<Fuzzer:Extern:m0>? <Extern:Fuzzer:m1>)* <Fuzzer:Third:m2>\n<m0> ::= 'm0;'\n<m1> ::= 'm1;'\n<m2> ::= 'm2;'\n" + PARTIES, ["<start>"]),
     ("<start> ::= (<Fuzzer:Extern:m0> | <Fuzzer:Extern:m0> <Extern:Fuzzer:m1>){1,2}\n<m0> ::= 'm0;'\n<m1> ::= 'm1;'\n" + PARTIES, ["<start>"]),
+    # one message type, one sender, two recipients, different continuations
+    ("<start> ::= <Fuzzer:Extern:m0> | <Fuzzer:Third:m0> <Third:Fuzzer:m3>\n<m0> ::= 'm0;'\n<m3> ::= 'm3;'\n" + PARTIES, ["<start>"]),
+    ("<start> ::= (<Fuzzer:Extern:m0> <Extern:Fuzzer:m1> | <Fuzzer:Third:m0> <Third:Fuzzer:m3>){2}\n<m0> ::= 'm0;'\n<m1> ::= 'm1;'\n<m3> ::= 'm3;'\n" + PARTIES, ["<start>"]),
 ]
 
 
@@ -218,15 +230,34 @@ def correspondence(res):
     for (rules, hist, opts, complete), inf in pairs:
         cterms.append(f"({rules}, {coq_list([coq_string(h) for h in hist])}, {coq_list([coq_string(o) for o in opts])}, {coq_bool(complete)})")
     codes = common.run_case_codes("C19", "eval", HEADER, cterms, "c19_eval", chunk=60, ctype=CT)
-    res.coverage["rule"] = ("5 fixed protocol grammars (incl. tests/resources/forecaster.fan with parties, 'after the last allowed repetition' shapes) + random "
+    res.coverage["rule"] = ("7 fixed protocol grammars (incl. tests/resources/forecaster.fan with parties, 'after the last allowed repetition' shapes) + random "
                             "protocol grammars (1-3 control nonterminals, 2-6 message types over 3 parties, nested groups x ? * + {n} {n,m} {n,}); histories "
                             "explored depth-first through the REAL forecaster's options (up to 3 per node, depth 5, 40 histories per grammar), every message "
                             "mounted the way the search does; each answer of PacketForecaster.predict compared in Coq. non-trivial = non-empty history; "
                             "distinct by (spec, history)")
     ok = 0
+    known, _ = common.load_known("C19")
+    sigs = {k["signature"] for k in known}
+    # the recorded finding: grammars in which one sender sends one message type to different recipients
+    import re as _re
+    proj_idx, proj_terms = [], []
+    for i, (code, ((rules, hist, opts, complete), inf)) in enumerate(zip(codes, pairs)):
+        if code in (0, 2) and not (code == 2 and not hist):
+            refs = set(_re.findall(r"<(\w+):(?:(\w+):)?(\w+)>", inf["spec"]))
+            by = {}
+            for s_, r_, n_ in refs:
+                by.setdefault((s_, n_), set()).add(r_ or "None")
+            merged = {k for k, v in by.items() if len(v) > 1}
+            if merged:
+                tab = [(f"{s_}:{r_ or 'None'}:<{n_}>", f"{s_}:*:<{n_}>") for s_, r_, n_ in refs if (s_, n_) in merged]
+                proj_idx.append(i)
+                proj_terms.append(f"({rules}, {coq_list([coq_string(h) for h in hist])}, {coq_list([coq_string(o) for o in opts])}, {coq_bool(complete)}, "
+                                  f"{coq_list([f'({coq_string(a)}, {coq_string(b)})' for a, b in sorted(tab)])})")
+    pcodes = common.run_case_codes("C19", "proj", HEADER, proj_terms, "c19_eval_proj", chunk=60, ctype=PT) if proj_terms else []
+    merged_ok = {i for i, v in zip(proj_idx, pcodes) if v == 1 or v == 5 or (v == 2 and not pairs[i][0][1])}
     for c in crashes[:3]:
         res.violation("the forecaster raised on a history that it produced itself", c)
-    for code, ((rules, hist, opts, complete), inf) in zip(codes, pairs):
+    for i_, (code, ((rules, hist, opts, complete), inf)) in enumerate(zip(codes, pairs)):
         if code is None:
             raise Broken("evaluation failed (case file)", repr(inf)[:500])
         if code == 1 or (code == 2 and not hist):
@@ -234,6 +265,10 @@ def correspondence(res):
             continue
         if code == 5:
             res.bump("model_gave_up_recursive_grammar")
+            continue
+        if i_ in merged_ok and "options-merged-over-recipients" in sigs:
+            res.known(KNOWN_MERGE)
+            res.bump("known_merged_recipients")
             continue
         if len(res.violations) < 3:
             what = ("the options offered after a history differ from the messages that can follow it in the grammar" if code == 0 else
